@@ -32,9 +32,10 @@ DEFN_CONE = ["Contract.__init__", "Invariant.__init__", "Snapshot.__init__", "fi
              "add_postcondition_to_checker", "add_snapshot_to_checker", "require.__init__", "ensure.__init__", "invariant.__init__",
              "snapshot.__init__", "require.__call__", "ensure.__call__", "snapshot.__call__", "decorate_with_checker", "resolve_kwdefaults"]
 DEFN_UNITS = set(DEFN_CONE)
+import specs.propmerge as propmerge
 U.update(_by_addr(metaclass.META_SPECS))
 U.update(_by_addr([addinv.ADDINV]))
-META_CONE = ["_collapse_invariants", "_collapse_preconditions", "_collapse_postconditions", "_collapse_snapshots", "_decorate_namespace_function",
+META_CONE = ["_collapse_invariants", "_collapse_preconditions", "_collapse_postconditions", "_collapse_snapshots", "_decorate_namespace_function", "_decorate_namespace_property",
              "_dbc_decorate_namespace", "DBCMeta.__new__", "invariant.__call__"]
 META_UNITS = set(META_CONE)
 U.update(_by_addr(recompute.RC_SPECS))
@@ -66,8 +67,8 @@ INV_UNITS = set(INV_CONE) | {"add_invariant_checks"}
 WRAPPERS6 = ["decorate_with_checker/wrapper[sync]", "decorate_with_checker/wrapper[async]", "_decorate_with_invariants/wrapper[0]",
              "_decorate_with_invariants/wrapper[1]", "_decorate_with_invariants/wrapper[2]", "_decorate_new_with_invariants/wrapper"]
 
-PROP_BOUND = dict(unit="_metaclass.py::_decorate_namespace_property", script="histfam.py",
-                  bound="16 definition histories, 4 of them with property getters (two bases with postconditions/snapshots, two bases with preconditions, "
+PROP_BOUND = dict(unit="_metaclass.py: the merge on real class hierarchies (executed cross-check of _decorate_namespace_function/_property, _dbc_decorate_namespace, DBCMeta.__new__ together)", script="histfam.py",
+                  bound="19 definition histories, 5 of them with property getters, 3 binding an inherited member again (two bases with postconditions/snapshots, two bases with preconditions, "
                         "one unconstrained base in either order, a chain with a gap), each compared with the effective contracts computed from the declarations "
                         "and with identity/content snapshots of every earlier class")
 PROPS = {}
